@@ -180,10 +180,28 @@ class Run:
         timeout = timeout or (150 if self.tier == "quick" else 900)
         self.crates.append(crate)
         jobs = [(crate, l["harness"], {"timeout": l.get("timeout", timeout)}) for l in lemmas]
+        # listed known findings of a lemma need the lemma discharged again with their roles assumed away: start those
+        # variants together with the base run (same verdict logic, only the wall time changes)
+        pre = []
+        for l in lemmas:
+            excl = l.get("exclusions") or {}
+            listed = [sw for role, sw in excl.items() if self.known.lookup(self.prop, "%s/%s" % (l["id"], role)) is not None]
+            for n in range(1, len(listed) + 1):
+                for combo in self._orders(listed, n):
+                    c2 = crate.variant("x" + "".join(x[0] for x in combo) + str(n), list(combo))
+                    self.crates.append(c2)
+                    pre.append((l, tuple(sorted(combo)), c2))
+        jobs += [(c2, l["harness"], {"timeout": l.get("timeout", timeout)}) for (l, _, c2) in pre]
         results = kani_run.run_all(jobs, parallel)
-        for l, r in zip(lemmas, results):
+        self._pre = {(l["id"], combo): (c2, r) for (l, combo, c2), r in zip(pre, results[len(lemmas):])}
+        for l, r in zip(lemmas, results[:len(lemmas)]):
             self._kani_result(crate, l, r)
         return results
+
+    @staticmethod
+    def _orders(items, n):
+        import itertools
+        return [c for c in itertools.combinations(items, n)]
 
     def _kani_result(self, crate, l, r):
         self.queries += 1
@@ -237,10 +255,15 @@ class Run:
                     if sw is None or sw in done or len(done) >= 4:
                         return self.inconclusive_(lid, "known finding '%s' has no exclusion switch; cannot show the rest of the lemma" % role)
                     done.append(sw)
-                    c2 = crate.variant("x%d" % len(done), done)
-                    self.crates.append(c2)
-                    l2 = dict(l, id=lid + "[excluding " + ",".join(done) + "]")
-                    r2 = c2.run(l["harness"], timeout=l.get("timeout", 900))
+                    base_id = lid.split("[")[0]
+                    cached = getattr(self, "_pre", {}).get((base_id, tuple(sorted(done))))
+                    if cached:
+                        c2, r2 = cached
+                    else:
+                        c2 = crate.variant("x%d" % len(done), done)
+                        self.crates.append(c2)
+                        r2 = c2.run(l["harness"], timeout=l.get("timeout", 900))
+                    l2 = dict(l, id=base_id + "[excluding " + ",".join(done) + "]")
                     return self._kani_result(c2, l2, r2)
                 return listed
             return self.inconclusive_(lid, "counterexample did not reproduce natively (stub/mock suspected): %s" % (
